@@ -483,6 +483,51 @@ Proof.
   exact (strongly_sorted_app _ _ _ S x y Ix Iy).
 Qed.
 
+(* ---- the limit after re-binning (PostProcess with a time resolution) ------------------------------- *)
+Lemma rebin_spec : forall size n bound (s : list row),
+  let rb := rebin size s in
+  Permutation (merge_rows (map (bin_row size) s)) rb /\
+  Sorted (ngt (cmp_time row_less true)) rb /\
+  (n <> 0%N -> limit_pp n rb = firstn (N.to_nat n) rb) /\ limit_pp 0 rb = rb /\
+  limit_fin n bound rb = firstn (N.to_nat (N.min n bound)) rb /\
+  (forall m x y, In x (firstn m rb) -> In y (skipn m rb) -> cmp_time row_less true y x = false).
+Proof.
+  intros size n bound s rb. unfold rb, rebin.
+  pose proof (cmp_time_sto_on true) as Hs.
+  repeat split.
+  - apply sort_perm.
+  - apply (sort_sorted row_key _ Hs).
+  - apply limit_pp_firstn.
+  - apply limit_fin_firstn.
+  - apply (limit_keeps_top row_key _ Hs).
+Qed.
+
+Lemma stage_limits : forall tb n bound (s : list row),
+  (n <> 0%N -> limit_pp n (stage tb s) = firstn (N.to_nat n) (stage tb s)) /\
+  limit_pp 0 (stage tb s) = stage tb s /\
+  limit_fin n bound (stage tb s) = firstn (N.to_nat (N.min n bound)) (stage tb s).
+Proof. intros. repeat split; [apply limit_pp_firstn | apply limit_fin_firstn]. Qed.
+
+Lemma stage_cases : forall tb (s : list row),
+  (tb = None \/ tb = Some five_min_ns -> stage tb s = s) /\
+  (forall size, tb = Some size -> size <> five_min_ns -> stage tb s = rebin size s).
+Proof.
+  intros tb s. split.
+  - intros [->| ->]; reflexivity.
+  - intros size -> Hne. unfold stage. destruct (Z.eqb_spec size five_min_ns); [contradiction|reflexivity].
+Qed.
+
+Lemma run_pp_spec : forall k d asc tb n l less, by_ k d asc = Ok less ->
+  run_pp k d asc tb n l = Ok (limit_pp n (stage tb (sort_rows less l))).
+Proof. intros k d asc tb n l less H. unfold run_pp, run_sort. rewrite H. reflexivity. Qed.
+
+Lemma run_fin_spec : forall k d asc tb n bound l less, by_ k d asc = Ok less -> l <> [] ->
+  run_fin k d asc tb n bound l = Ok (limit_fin n bound (stage tb (sort_rows less l))).
+Proof.
+  intros k d asc tb n bound l less H Hl. unfold run_fin, run_sort. rewrite H.
+  destruct l; [contradiction|reflexivity].
+Qed.
+
 (* ---- the defects of the unfixed comparator, as facts about its model ----------------------------- *)
 Open Scope string_scope.
 Definition v0_a : row := R 1700000000000000000 0 "hostA" "1" "eth0" (A4 167772161) (A4 167772162) 6 80 10 20 1 2.
